@@ -113,6 +113,27 @@ func (u *gUniverse) key(k gKey) graphs.SymbolKey {
 	return graphs.NewSymbolKey(u.idents[k[0]], u.versions[k[1]])
 }
 
+// fv returns a FRESH FileVersion value for version number v on every call, cycling through
+// representations of the same instant (local zone, UTC, monotonic reading stripped): callers of the
+// graph pass equal versions (FileVersion.Equals), not identical structs.
+var fvCalls int
+
+func (u *gUniverse) fv(v int) *gast.FileVersion {
+	base := u.versions[v]
+	if base == nil {
+		return nil
+	}
+	fvCalls++
+	t := base.ModTime
+	switch fvCalls % 3 {
+	case 1:
+		t = t.UTC()
+	case 2:
+		t = t.In(time.FixedZone("x", 3600))
+	}
+	return &gast.FileVersion{Path: base.Path, ModTime: t, Hash: base.Hash}
+}
+
 func (u *gUniverse) unkey(k graphs.SymbolKey) gKey {
 	if r, ok := u.byKey[k]; ok {
 		return r
@@ -136,7 +157,7 @@ func (u *gUniverse) verNum(v *gast.FileVersion) int {
 }
 
 func (u *gUniverse) sym(k gKey, kind common.SymKind) metadata.SymNodeMeta {
-	return metadata.SymNodeMeta{Name: u.idents[k[0]].Name, Node: u.idents[k[0]], SymbolKind: kind, FVersion: u.versions[k[1]]}
+	return metadata.SymNodeMeta{Name: u.idents[k[0]].Name, Node: u.idents[k[0]], SymbolKind: kind, FVersion: u.fv(k[1])}
 }
 
 func (u *gUniverse) apply(g *symboldg.SymbolGraph, op gOp) (res int, msg string) {
@@ -162,7 +183,7 @@ func (u *gUniverse) apply(g *symboldg.SymbolGraph, op gOp) (res int, msg string)
 	case "AddField":
 		tk := u.key(*op.Ty)
 		root := typeref.NewNamedTypeRef(&tk, nil)
-		tv := u.versions[op.K[1]]
+		tv := u.fv(op.K[1])
 		_, err = g.AddField(symboldg.CreateFieldNode{Data: metadata.FieldMeta{
 			SymNodeMeta: u.sym(*op.K, common.SymKindField),
 			Type:        metadata.TypeUsageMeta{SymNodeMeta: metadata.SymNodeMeta{Name: tk.Name, FVersion: tv}, Root: &root},
